@@ -297,10 +297,15 @@ class Harness:
         self.helper = None       # (thread, pkt, result-list, unfinished_tasks before the put)
         self.finished = threading.Event()
         self.threading = threading
+        self.accepted = []       # (hdr, data) of every send_packet that returned True, in order
+        self.refused = []
+        self.received = []       # (header, port, channel, data) of every packet from receive_packet, in order
+        self.err_log = []        # (index of the transmission in progress, kind)
 
     # --- callbacks / application side
     def on_error(self, msg):
         self.errs.append('err:' + _errkind(msg))
+        self.err_log.append((self.i - 1, _errkind(msg)))
 
     def _mkpkt(self, hdr, data):
         from cflib.crtp.crtpstack import CRTPPacket
@@ -325,6 +330,7 @@ class Harness:
             if th.is_alive():
                 raise RuntimeError('blocked submission did not complete')
             self.helper = None
+            (self.accepted if res[0] else self.refused).append(pkt)
             return ['%s:%d:%s' % ('acc' if res[0] else 'ref', pkt[0], hexs(pkt[1]))]
         return []
 
@@ -344,6 +350,7 @@ class Harness:
                 self.lines.append('ok blk:%d:%s' % (hdr, hexs(data)))
             else:
                 ok = self.d.send_packet(self._mkpkt(hdr, data))
+                (self.accepted if ok else self.refused).append((hdr, data))
                 self.lines.append('ok %s:%d:%s' % ('acc' if ok else 'ref', hdr, hexs(data)))
         elif op[0] == 'timeout':
             if self.helper is None:
@@ -368,6 +375,7 @@ class Harness:
             if pk is None:
                 break
             evs.append('rx:%d/%d/%d:%s' % (pk.header, pk.port, pk.channel, hexs(pk.data)))
+            self.received.append((pk.header, pk.port, pk.channel, bytes(pk.data)))
         evs += self._helper_poll()
         self.lines.append('ok ' + ' '.join(evs))
         self.cur = None
@@ -462,6 +470,197 @@ def run_l1(steps, nretries, state_line=True):
     return lines
 
 
+# ------------------------------------------------------------------------------------------------------
+# Python twin of Spec/C01.lean (peer + channel + dongle).  Cross-checked against the Lean Spec on every L2 step (usb=...).
+def is_ctl(f):
+    return len(f) == 3 and (f[0] & 0xF3) == 0xF3 and f[1] == 5
+
+
+class PeerTwin:
+    def __init__(self, safelink=False, up=1, down=1, last=b''):
+        self.safelink, self.up, self.down, self.last = bool(safelink), up, down, bytes(last)
+        self.rxq, self.txq, self.deq = [], [], []
+
+    def queue(self, f):
+        self.txq.append(bytes(f))
+
+    def recv(self, f, rssi):
+        f = bytes(f)
+        if is_ctl(f):
+            self.safelink, self.up, self.down, self.last = f[2] != 0, 1, 1, f
+            return f
+        if len(f) == 0:
+            return self.last
+        if (not self.safelink) or (f[0] & 0x08) != (self.up << 3):
+            self.rxq.append(f)
+            self.up = 1 - self.up
+        if (not self.safelink) or (f[0] & 0x04) != (self.down << 2):
+            self.down = 1 - self.down
+            if self.txq:
+                pk = self.txq.pop(0)
+                self.deq.append(pk)
+                out = (bytes([(pk[0] & 0xF3) | (self.down << 2)]) + pk[1:]) if (self.safelink and pk) else pk
+            else:
+                out = bytes([0xF3 | (self.down << 2), 1, rssi])
+            self.last = out
+            return out
+        return self.last
+
+
+def usb_reply(st, outcome, payload):
+    return bytes([st | 1]) + bytes(payload) if outcome == 'ok' else bytes([st & 0xFE])
+
+
+# ------------------------------------------------------------------------------------------------------
+# Tie B, level 2: the whole real stack on a fake USB device
+class _FakeCtx:
+    def dispose(self, dev, close_handle=True):
+        pass
+
+
+class FakeUsbDev:
+    """The Crazyradio dongle as pyusb presents it.  One persistent instance; `backend` is the current case."""
+    bcdDevice = 0x0053
+    serial_number = 'VERIF00001'
+    _ctx = _FakeCtx()
+    backend = None
+    ctrl = 0
+
+    def set_configuration(self, c):
+        pass
+
+    def reset(self):
+        pass
+
+    def ctrl_transfer(self, *a, **kw):
+        FakeUsbDev.ctrl += 1
+
+    def write(self, endpoint, data, timeout=None):
+        return FakeUsbDev.backend.usb_write(endpoint, bytes(bytearray(data)))
+
+    def read(self, endpoint, size, timeout=None):
+        return FakeUsbDev.backend.usb_read(endpoint, size)
+
+
+_USB_PATCH = []
+
+
+def _install_usb():
+    import usb.core
+    if not _USB_PATCH:
+        dev = FakeUsbDev()
+        _USB_PATCH.append((usb.core.find, dev))
+        usb.core.find = lambda *a, **kw: [dev]
+
+
+def _uninstall_usb():
+    import usb.core
+    if _USB_PATCH:
+        usb.core.find = _USB_PATCH.pop()[0]
+
+
+def run_l2(ops, nretries, peer0=(0, 1, 1, b''), full=True):
+    """ops: ('sub',hdr,data) | ('timeout',) | ('queue',frame) | ('xmit',outcome,st,rssi); must end with an xmit.
+    full=True : RadioDriver.connect -> RadioManager -> _SharedRadio thread -> Crazyradio -> fake USB device
+    full=False: _RadioDriverThread directly on a real Crazyradio object on the fake USB device (no shared-radio thread)
+    Returns (reply lines, twin, raw observations for search())."""
+    import array
+    import queue
+    import usb.core
+    rd = _rd()
+    import cflib.drivers.crazyradio as cr
+    _install_usb()
+    rd.set_retries_before_disconnect(nretries)
+    steps, cur = [], []
+    for op in ops:
+        if op[0] == 'xmit':
+            steps.append({'apps': cur, 'xmit': op})
+            cur = []
+        else:
+            cur.append(op)
+    d = rd.RadioDriver()
+    twin = PeerTwin(*peer0)
+    obs = {'tx': [], 'outcomes': [], 'usb': [], 'accepted_at_tx': []}
+
+    class H2(Harness):
+        def app(self, op):
+            if op[0] == 'queue':
+                twin.queue(op[1])
+                self.lines.append('ok -')
+            else:
+                Harness.app(self, op)
+
+    hz = H2(d, steps)
+
+    class Backend:
+        reply = None
+
+        def usb_write(self, endpoint, frame):
+            assert endpoint == 1
+            st = hz.begin_tx(frame)
+            if st is None:
+                d._thread._sp = True
+                hz.finished.set()
+                raise usb.core.USBError('script over')
+            obs['accepted_at_tx'].append(len(hz.accepted))
+            _, outcome, stb, rssi = st['xmit']
+            payload = b'' if outcome == 'up' else twin.recv(frame, rssi)
+            self.reply = usb_reply(stb, outcome, payload)
+            obs['tx'].append(frame)
+            obs['outcomes'].append(outcome)
+            hz.cur.append('usb=' + hexs(self.reply))
+            return len(frame)
+
+        def usb_read(self, endpoint, size):
+            assert endpoint == 0x81
+            return array.array('B', self.reply)
+
+    FakeUsbDev.backend = Backend()
+    try:
+        if full:
+            d.connect('radio://0/80/2M', None, hz.on_error)
+        else:
+            d.in_queue = queue.Queue()
+            d.out_queue = queue.Queue(1)
+            d.link_error_callback = hz.on_error
+            d._radio = cr.Crazyradio(device=_USB_PATCH[0][1])
+            d._thread = rd._RadioDriverThread(d._radio, d.in_queue, d.out_queue, None, hz.on_error, d, None)
+            d._thread.start()
+        if not hz.finished.wait(120):
+            raise RuntimeError('L2: script did not finish (radio thread stuck or dead)')
+        hz.teardown()
+        d.close()
+    finally:
+        rd.set_retries_before_disconnect(100)
+    hz.close_step()
+    lines = []
+    for ln in hz.lines:        # move usb=... to the end of its line (canonical order)
+        ws = ln.split(' ')
+        u = [w for w in ws if w.startswith('usb=')]
+        lines.append(' '.join([w for w in ws if not w.startswith('usb=')] + u))
+    lines.append('ok needs_resending=%d delivered=%s pending=%d peer_safelink=%d' % (
+        1 if d.needs_resending else 0, ','.join(hexs(f) for f in twin.rxq) or '-', len(twin.txq), 1 if twin.safelink else 0))
+    obs['lines'] = lines
+    obs['accepted'], obs['refused'], obs['received'], obs['err_log'] = hz.accepted, hz.refused, hz.received, hz.err_log
+    obs['needs_resending'] = d.needs_resending
+    return lines, twin, obs
+
+
+def lean_lines_l2(ops, nretries, peer0=(0, 1, 1, b'')):
+    out = ['sys reset %d %d %d %d %s' % (nretries, peer0[0], peer0[1], peer0[2], hexs(peer0[3]))]
+    for op in ops:
+        if op[0] == 'sub':
+            out.append('sys sub %d %s' % (op[1], hexs(op[2])))
+        elif op[0] == 'timeout':
+            out.append('sys timeout')
+        elif op[0] == 'queue':
+            out.append('sys queue ' + hexs(op[1]))
+        else:
+            out.append('sys xmit %s %d %d' % (op[1], op[2], op[3]))
+    out.append('sys state')
+    return out
+
+
 def lean_lines_l1(steps, nretries):
     out = ['reset %d' % nretries]
     for st in steps:
@@ -473,6 +672,134 @@ def lean_lines_l1(steps, nretries):
     return out
 
 
+# ------------------------------------------------------------------------------------------------------
+# Crazyradio.send_packet ack decoding on arbitrary USB replies
+def run_dec(usb, arc):
+    import array
+    import usb.core as uc
+    _rd()
+    import cflib.drivers.crazyradio as cr
+    _install_usb()
+
+    class Backend:
+        def usb_write(self, endpoint, frame):
+            if usb is None:
+                raise uc.USBError('scripted')
+            return len(frame)
+
+        def usb_read(self, endpoint, size):
+            return array.array('B', usb)
+    FakeUsbDev.backend = Backend()
+    radio = cr.Crazyradio(device=_USB_PATCH[0][1])
+    radio.set_arc(arc)
+    try:
+        a = radio.send_packet((0xff,))
+    except Exception as e:
+        return 'err ' + exc_enum(e)
+    if a is None:
+        return 'ok none'
+    return 'ok ack=%d pd=%d retry=%d data=%s' % (1 if a.ack else 0, 1 if a.powerDet else 0, a.retry, hexs(bytes(bytearray(a.data))))
+
+
+# ------------------------------------------------------------------------------------------------------
+# The property itself, evaluated on what the REAL code did in a closed run (Python twin of the Props statements)
+def up_view(frames):
+    out = []
+    for f in frames:
+        f = bytes(f)
+        if f:
+            g = bytes([f[0] & 0xF3]) + f[1:]
+            if g != b'\xf3':
+                out.append(g)
+    return out
+
+
+def down_view(frames):
+    out = []
+    for f in frames:
+        f = bytes(f)
+        if f:
+            g = bytes([f[0] & 0xF3]) + f[1:]
+            if not (len(g) == 3 and g[0] == 0xF3 and g[1] == 1):
+                out.append(g)
+    return out
+
+
+def property_failures(case, twin, obs, attempts=10):
+    """returns [(key, what, details)]"""
+    fails = []
+    ops, n = case['ops'], case['n']
+    outcomes = obs['outcomes']
+    # negotiation as the peer saw it: confirmed at the first `ok` among the first `attempts` transmissions
+    neg_len, confirmed = min(attempts, len(outcomes)), False
+    for i, o in enumerate(outcomes[:attempts]):
+        if o == 'ok':
+            neg_len, confirmed = i + 1, True
+            break
+    neg_finished = confirmed or len(outcomes) >= attempts
+    # safelink only if confirmed / needs_resending
+    if neg_finished and obs['needs_resending'] != (not confirmed):
+        fails.append(('needs-resending', 'needs_resending differs from "safelink was not confirmed"',
+                      {'confirmed': confirmed, 'needs_resending': obs['needs_resending']}))
+    if not neg_finished and obs['needs_resending'] is not True:
+        fails.append(('needs-resending', 'needs_resending cleared before the negotiation finished', {}))
+    data_tx = obs['tx'][neg_len:]
+    raw_frames = [bytes([h]) + bytes(d) for (h, d) in obs['accepted']]
+    if not confirmed:
+        for f in data_tx:
+            if f != b'\xff' and f not in raw_frames:
+                fails.append(('safelink-unconfirmed', 'header bits rewritten although the peer never confirmed safelink', {'frame': f.hex()}))
+                break
+    # link error exactly when N consecutive data transmissions went unacknowledged
+    want, run = [], 0
+    for j, o in enumerate(outcomes[neg_len:]):
+        run = 0 if o == 'ok' else run + 1
+        if run == n and n > 0:
+            want.append(neg_len + j)
+    got = [i for (i, k) in obs['err_log'] if k == 'tooManyLost']
+    if got != want:
+        fails.append(('link-error', 'link error reports differ from "exactly when N consecutive transmissions are unacknowledged"',
+                      {'n': n, 'reported_at': got, 'expected_at': want}))
+    other = [k for (_, k) in obs['err_log'] if k not in ('tooManyLost', 'couldNotSend')]
+    if other:
+        fails.append(('spurious-error', 'unexpected link error', {'errors': other}))
+    if not confirmed:
+        return fails
+    # uplink: delivered non-null packets are a prefix of the accepted ones
+    dlv, acc = up_view(twin.rxq), up_view(raw_frames)
+    if dlv != acc[:len(dlv)]:
+        fails.append(('uplink', 'packets delivered to the Crazyflie are not an in-order duplicate-free prefix of the accepted packets',
+                      {'delivered': [x.hex() for x in dlv], 'accepted': [x.hex() for x in acc]}))
+    # downlink
+    rcv = down_view([bytes([h]) + d for (h, _, _, d) in obs['received']])
+    qd = down_view(twin.deq + twin.txq)
+    if rcv != qd[:len(rcv)]:
+        fails.append(('downlink', 'packets from receive_packet are not an in-order duplicate-free prefix of what the Crazyflie queued',
+                      {'received': [x.hex() for x in rcv], 'queued': [x.hex() for x in qd]}))
+    for (h, port, chan, d) in obs['received']:
+        if port != (h >> 4) or chan != (h & 3) or (h & 0x0C) != 0x0C:
+            fails.append(('downlink', 'received packet has inconsistent header/port/channel', {'header': h, 'port': port, 'channel': chan}))
+            break
+    # drained: trailing ok transmissions with nothing submitted / queued in between
+    t = 0
+    for op in reversed(ops):
+        if op[0] == 'xmit' and op[1] == 'ok':
+            t += 1
+        else:
+            break
+    if t >= 3 and neg_len <= len(outcomes) - 3 and dlv != acc:
+        fails.append(('uplink-drain', 'accepted packets still undelivered after three acknowledged idle transmissions',
+                      {'delivered': [x.hex() for x in dlv], 'accepted': [x.hex() for x in acc]}))
+    if neg_len <= len(outcomes) - t:
+        # p pending packets need at most p+1 acknowledged transmissions (p <= everything ever queued)
+        if t >= 1 + len(twin.deq) + len(twin.txq) and rcv != qd:
+            fails.append(('downlink-drain', 'queued downlink packets not all received after enough acknowledged transmissions',
+                          {'received': [x.hex() for x in rcv], 'queued': [x.hex() for x in qd]}))
+    return fails
+
+
+# ------------------------------------------------------------------------------------------------------
+# case generation
 def _rand_payload(rng, maxlen=6):
     return bytes(rng.randrange(256) for _ in range(rng.choice([0, 1, 1, 2, 3, maxlen])))
 
@@ -481,10 +808,10 @@ def gen_l1(rng, long=False):
     n = rng.choice([1, 1, 2, 3, 5])
     k = rng.randrange(0, 60 if long else 26)
     steps = []
-    neg_over = rng.random() < 0.15 and None
+    neg_over = False
     for i in range(k):
         apps = []
-        for _ in range(rng.choice([0, 0, 0, 1, 1, 2, 3])):
+        for _ in range(rng.choice([0, 0, 0, 0, 1, 1, 2])):
             apps.append(('sub', rng.choice([0xFF, 0xF3, rng.randrange(256)]), _rand_payload(rng)))
         r = rng.random()
         if i < 10 and not neg_over:
@@ -516,43 +843,273 @@ def gen_l1(rng, long=False):
         steps = steps[:rng.randrange(0, 9)]
         if not any(s['ans'][0] == 'r' and s['ans'][2] == bytes([0xff, 0x05, 0x01]) for s in steps):
             steps.append({'apps': [], 'ans': ('exc',)})      # exception during negotiation: the thread dies
-    return steps, n
+    return {'kind': 'l1', 'steps': steps, 'n': n}
 
 
-def _compare(ctx, name, desc, lean_reqs, model, real):
-    if model != real:
-        j = next((i for i in range(min(len(model), len(real))) if model[i] != real[i]), min(len(model), len(real)))
-        ctx.disagree(name, {'desc': desc, 'requests': lean_reqs[max(0, j - 6):j + 1], 'first_diff_line': j},
-                     model[j] if j < len(model) else '(missing)', real[j] if j < len(real) else '(missing)')
-        return False
-    return True
+def _app_pkt(rng, tag):
+    """an application packet that is not a safelink control frame; mostly what cflib builds (bits 3..2 set)"""
+    r = rng.random()
+    if r < 0.6:
+        hdr = ((rng.randrange(16) << 4) | 0x0C | rng.randrange(4))
+    elif r < 0.8:
+        hdr = rng.choice([0xFF, 0xF3, 0xF7, 0xFB])       # port 15 channel 3: looks like the null packet's header
+    else:
+        hdr = rng.randrange(256)
+    data = bytes([tag & 0xFF]) + _rand_payload(rng) if rng.random() < 0.85 else b''
+    if (hdr & 0xF3) == 0xF3 and len(data) == 2 and data[0] == 5:
+        data = bytes([6]) + data[1:]
+    return hdr, data
 
 
-def correspond(ctx):
+def exhaustive_case(outs, submask, qmask, n, neg, full=False):
+    """negotiation prefix `neg` (outcome list), then one data transmission per element of `outs`; bit i of submask: the
+    application submits a packet before data transmission i; bit i of qmask: the Crazyflie queues one"""
+    ops = [('xmit', o, 0x10, 0x40) for o in neg]
+    for i, o in enumerate(outs):
+        if (submask >> i) & 1:
+            ops.append(('sub', 0x3C + 0x10 * (i % 8), bytes([0xA0 + i])))
+        if (qmask >> i) & 1:
+            ops.append(('queue', bytes([0x5C + (i % 4), 0xB0 + i])))
+        ops.append(('xmit', o, 0x10 * (i % 16), 0x40 + i))
+    return {'kind': 'closed', 'ops': ops, 'n': n, 'peer0': (0, 1, 1, b''), 'full': full}
+
+
+def gen_closed(rng, maxlen, full=False):
+    n = rng.choice([1, 2, 2, 3, 5, 8, 100])
+    peer0 = (rng.randrange(2), rng.randrange(2), rng.randrange(2), _rand_payload(rng))
+    k = rng.randrange(1, maxlen + 1)
+    p_ok = rng.choice([0.3, 0.6, 0.8, 0.95])
+    p_sub = rng.choice([0.0, 0.2, 0.5, 0.9])
+    p_q = rng.choice([0.0, 0.2, 0.5, 0.9])
+    ops, tag, burst = [], 0, 0
+    for i in range(k):
+        while rng.random() < p_sub * 0.7:
+            tag += 1
+            hdr, data = _app_pkt(rng, tag)
+            ops.append(('sub', hdr, data))
+        while rng.random() < p_q * 0.7:
+            tag += 1
+            hdr, data = _app_pkt(rng, tag)
+            ops.append(('queue', bytes([hdr]) + data))
+        if burst == 0 and rng.random() < 0.03:
+            burst = rng.choice([n - 1, n, n + 1, 2 * n, 2 * n + 1]) if n < 50 else rng.randrange(1, 12)
+        if burst > 0:
+            burst -= 1
+            o = rng.choice(['up', 'ack'])
+        else:
+            o = 'ok' if rng.random() < p_ok else rng.choice(['up', 'ack'])
+        ops.append(('xmit', o, rng.randrange(256), rng.randrange(256)))
+    if rng.random() < 0.5:
+        ops += [('xmit', 'ok', rng.randrange(256), rng.randrange(256)) for _ in range(rng.randrange(1, 12))]
+    return {'kind': 'closed', 'ops': ops, 'n': n, 'peer0': peer0, 'full': full}
+
+
+def gen_timeout_case(rng):
+    """a blocked submission whose real 2 s timeout expires (slot stays full while the link is down)"""
+    ops = [('xmit', 'ok', 1, 1), ('sub', 0x3C, b'\x01'), ('xmit', 'ok', 1, 1), ('sub', 0x4C, b'\x02'), ('sub', 0x5C, b'\x03'),
+           ('xmit', rng.choice(['up', 'ack']), 0, 0), ('timeout',), ('xmit', 'up', 0, 0), ('sub', 0x6C, b'\x04'), ('xmit', 'ok', 0, 0),
+           ('xmit', 'ok', 0, 0), ('xmit', 'ok', 0, 0), ('xmit', 'ok', 0, 0)]
+    return {'kind': 'closed', 'ops': ops, 'n': 100, 'peer0': (0, 1, 1, b''), 'full': rng.random() < 0.5}
+
+
+def gen_dec(rng, status):
+    r = rng.random()
+    if r < 0.02:
+        return {'kind': 'dec', 'usb': None, 'arc': rng.randrange(16)}
+    if r < 0.04:
+        return {'kind': 'dec', 'usb': b'', 'arc': rng.randrange(16)}
+    return {'kind': 'dec', 'usb': bytes([status]) + _rand_payload(rng, 31), 'arc': rng.randrange(16)}
+
+
+def gen_cases(ctx):
+    import itertools
     rng = ctx.rng
     thorough = ctx.tier == 'thorough'
     cases = []
-    for c in range(3000 if thorough else 500):
-        steps, n = gen_l1(rng, long=(c % 5 == 0))
-        cases.append((steps, n))
-    reqs, spans = [], []
-    for steps, n in cases:
-        ll = lean_lines_l1(steps, n)
-        spans.append((len(reqs), len(reqs) + len(ll)))
-        reqs += ll
-    replies = ctx.lean(DRIVER, reqs)
-    for (steps, n), (a, b) in zip(cases, spans):
-        model = replies[a + 1:b]
-        real = run_l1(steps, n)
-        ctx.case({'level': 'L1', 'n': n, 'steps': len(steps)}, ('L1', repr(steps), n))
-        ctx.count('L1:scripts')
-        for ln in real:
-            for w in ln.split(' ')[1:]:
-                ctx.count('L1:ev:' + w.split(':')[0].split('=')[0] + (':' + w.split(':')[1] if w.startswith('err:') else ''))
-            if ln.startswith('err'):
-                ctx.count('L1:' + ln)
-        _compare(ctx, 'L1-thread-vs-model', {'n': n, 'steps': [(s['apps'], s['ans']) for s in steps][:40]}, reqs[a:b], model, real)
+    # (1) exhaustive: every outcome string x every submission mask, after a confirmed negotiation
+    kmax_full = 7 if thorough else 6
+    O = ['ok', 'up', 'ack']
+    for k in range(0, kmax_full + 1):
+        for outs in itertools.product(O, repeat=k):
+            for submask in range(1 << k):
+                qmask = (submask * 5 + len(cases)) % (1 << k) if k else 0
+                cases.append(exhaustive_case(outs, submask, qmask, 2, ['ok']))
+    if thorough:
+        for outs in itertools.product(O, repeat=8):
+            for _ in range(16):
+                cases.append(exhaustive_case(outs, rng.getrandbits(8), rng.getrandbits(8), rng.choice([1, 2, 3]), ['ok']))
+    # (2) exhaustive negotiation: every outcome string of length <= 5 (6) before, then a fixed data tail; and the 10-attempt limit
+    for k in range(0, (7 if thorough else 6)):
+        for neg in itertools.product(O, repeat=k):
+            cases.append(exhaustive_case(['ok', 'ack', 'ok', 'up', 'ok', 'ok', 'ok'], 0b0010011, 0b0001101, 3, list(neg), full=(len(cases) % 7 == 0)))
+    for lost in range(8, 13):
+        for kind in ('up', 'ack', 'mix'):
+            neg = [('up' if (kind == 'up' or (kind == 'mix' and i % 2)) else 'ack') for i in range(lost)]
+            cases.append(exhaustive_case(['ok', 'ok', 'ack', 'ok', 'ok', 'ok'], 0b000011, 0b000101, 2, neg + ['ok'], full=True))
+    # (3) the whole stack (connect -> RadioManager -> shared radio thread -> Crazyradio -> USB) on all outcome strings, k <= 4 (5)
+    for k in range(0, (6 if thorough else 5)):
+        for outs in itertools.product(O, repeat=k):
+            cases.append(exhaustive_case(outs, rng.getrandbits(k) if k else 0, rng.getrandbits(k) if k else 0, 2, ['ack', 'ok'], full=True))
+    # (4) random long scripts
+    for c in range(4000 if thorough else 400):
+        cases.append(gen_closed(rng, rng.choice([20, 60, 400]) if c % 10 == 0 else 25, full=(c % 3 == 0)))
+    # (5) blocked submissions that time out (real 2 s each; they run concurrently in the worker pool)
+    for _ in range(8 if thorough else 4):
+        cases.append(gen_timeout_case(rng))
+    # (6) arbitrary answers at the radio-object boundary
+    for c in range(6000 if thorough else 1200):
+        cases.append(gen_l1(rng, long=(c % 5 == 0)))
+    # (7) ack decoding: all 256 status bytes
+    for rep in range(4 if thorough else 2):
+        for st in range(256):
+            cases.append(gen_dec(rng, st))
+    return cases
+
+
+# ------------------------------------------------------------------------------------------------------
+# running cases (in worker processes: the real code runs real threads, one case at a time per process)
+def lean_requests(case):
+    if case['kind'] == 'l1':
+        return lean_lines_l1(case['steps'], case['n'])
+    if case['kind'] == 'closed':
+        return lean_lines_l2(case['ops'], case['n'], case['peer0'])
+    return ['dec %s %d' % ('none' if case['usb'] is None else hexs(case['usb']), case['arc'])]
+
+
+def run_real(case):
+    """-> (reply lines incl. the reset line's 'ok', property failures)"""
+    if case['kind'] == 'l1':
+        return ['ok'] + run_l1(case['steps'], case['n']), []
+    if case['kind'] == 'closed':
+        lines, twin, obs = run_l2(case['ops'], case['n'], case['peer0'], full=case['full'])
+        return ['ok'] + lines, property_failures(case, twin, obs)
+    return [run_dec(case['usb'], case['arc'])], []
+
+
+def case_desc(case):
+    if case['kind'] == 'l1':
+        return {'level': 'L1', 'n': case['n'], 'steps': [(s['apps'], s['ans']) for s in case['steps']][:60]}
+    if case['kind'] == 'closed':
+        return {'level': 'L2' if case['full'] else 'L1c', 'n': case['n'], 'peer0': case['peer0'], 'ops': case['ops'][:80]}
+    return {'level': 'dec', 'usb': None if case['usb'] is None else case['usb'].hex(), 'arc': case['arc']}
+
+
+def _run_chunk(args):
+    cases, with_lean = args
+    import hashlib
+    from harness.lib.common import run_driver
+    res = {'counts': {}, 'disagreements': [], 'witnesses': [], 'keys': [], 'errors': []}
+
+    def count(k, v=1):
+        res['counts'][k] = res['counts'].get(k, 0) + v
+    replies = None
+    if with_lean:
+        reqs, spans = [], []
+        for c in cases:
+            ll = lean_requests(c)
+            spans.append((len(reqs), len(reqs) + len(ll)))
+            reqs += ll
+        replies = run_driver(DRIVER, reqs, 1200)
+    try:
+        for idx, c in enumerate(cases):
+            try:
+                real, fails = run_real(c)
+            except Exception as e:
+                import traceback
+                res['errors'].append('%s on %s' % (''.join(traceback.format_exception(type(e), e, e.__traceback__))[-1500:], str(case_desc(c))[:600]))
+                if len(res['errors']) > 3:
+                    break
+                continue
+            level = case_desc(c)['level']
+            count('cases:' + level)
+            res['keys'].append(hashlib.sha1(repr(sorted(c.items(), key=lambda kv: kv[0])).encode()).hexdigest()[:12])
+            for ln in real:
+                if ln.startswith('err'):
+                    count(level + ':' + ln)
+                for w in ln.split(' ')[1:]:
+                    if w.startswith('err:'):
+                        count(level + ':' + w)
+                    elif ':' in w and not w.startswith('usb') and not w.startswith('delivered'):
+                        count(level + ':ev:' + w.split(':')[0])
+                    elif w.startswith('usb='):
+                        count(level + ':acked' if int(w[4:6], 16) & 1 else level + ':unacked')
+                    elif w in ('died', 'none'):
+                        count(level + ':' + w)
+            if c['kind'] == 'closed':
+                count('%s:safelink=%s' % (level, 'no' if ' needs_resending=1' in real[-1] else 'yes'))
+            for (key, what, det) in fails:
+                res['witnesses'].append((key, what, {'case': case_desc(c), 'details': det}))
+                count('property-failure:' + key)
+            if replies is not None:
+                a, b = spans[idx]
+                model = replies[a:b]
+                if model != real:
+                    j = next((i for i in range(min(len(model), len(real))) if model[i] != real[i]), min(len(model), len(real)))
+                    ll = lean_requests(c)
+                    res['disagreements'].append((level + '-real-vs-model',
+                                                 {'case': case_desc(c), 'requests': ll[max(0, j - 8):j + 1], 'first_diff_line': j},
+                                                 model[j] if j < len(model) else '(missing)', real[j] if j < len(real) else '(missing)'))
+    finally:
+        _uninstall_usb()
+    return res
+
+
+def _run_all(ctx, with_lean):
+    import multiprocessing
+    import os
+    cases = gen_cases(ctx)
+    # corpus first
+    nw = max(1, min(8, (os.cpu_count() or 2) // 2))
+    # interleave so that every chunk gets a similar mix (and the 2 s timeout cases spread over the workers)
+    nchunks = nw * 4
+    chunks = [cases[i::nchunks] for i in range(nchunks)]
+    chunks = [c for c in chunks if c]
+    results = None
+    try:
+        mp = multiprocessing.get_context('fork')
+        with mp.Pool(nw) as pool:
+            results = pool.map(_run_chunk, [(c, with_lean) for c in chunks], chunksize=1)
+    except (OSError, ImportError) as e:
+        ctx.note('worker pool unavailable (%s): running sequentially' % e)
+    if results is None:
+        results = [_run_chunk((c, with_lean)) for c in chunks]
+    return cases, results
+
+
+_CACHE = {}
+
+
+def _report(ctx, results, correspondence):
+    for r in results:
+        for k, v in r['counts'].items():
+            ctx.count(k, v)
+        if correspondence:
+            for k in r['keys']:
+                ctx.case({'case-hash': k}, k)
+        if correspondence:
+            for (name, case, model, real) in r['disagreements']:
+                ctx.disagree(name, case, model, real)
+        for e in r['errors']:
+            ctx.break_('correspondence' if correspondence else 'search', 'harness', e)
+
+
+def correspond(ctx):
+    cases, results = _run_all(ctx, True)
+    _CACHE['results'] = results
+    # a few readable samples for the evidence file
+    pick = [c for c in cases if c['kind'] == 'closed'][300:302] + [c for c in cases if c['kind'] == 'closed' and c['full']][-40:-38] + \
+        [c for c in cases if c['kind'] == 'l1'][:1] + [c for c in cases if c['kind'] == 'dec'][:1]
+    for c in pick:
+        ctx.samples.append(case_desc(c))
+    _report(ctx, results, True)
 
 
 def search(ctx):
-    pass
+    """The property itself on the real code (closed runs against the peer twin); needs no Lean."""
+    results = _CACHE.get('results')
+    if results is None:
+        _, results = _run_all(ctx, False)
+        _report(ctx, results, False)
+    for r in results:
+        for (key, what, inp) in r['witnesses']:
+            ctx.witness(key, what, inp)
